@@ -86,7 +86,10 @@ where
   type Unsub = Subject::Unsub;
 
   fn actual_subscribe(self, mut observer: O) -> Self::Unsub {
-    observer.next(self.value.rc_deref().clone());
+    // Release the value cell before calling out: a subscriber may `peek()` or
+    // subscribe another observer from inside this first callback.
+    let current = self.value.rc_deref().clone();
+    observer.next(current);
     self.subject.actual_subscribe(observer)
   }
 }
